@@ -58,6 +58,12 @@ HARMLESS = {
          "        self._timer = asyncio.get_running_loop().call_later(self.timeout, self._timeout_mechanism)\n",
          "        self._transport.sendto(payload)\n        if self._timer:\n            self._timer.cancel()\n"
          "        self._arm_timeout()\n")], ("C04", "C05", "C06")),
+    # counterpart of C07_6: *immutable* class-level defaults rebound on the object are harmless (the constructor units
+    # object to mutable class-level state only)
+    "H10_immutable_class_level_defaults_in_protocol": ("protocol.py", [
+        ("class InverterProtocol:\n", "class InverterProtocol:\n    _partial_missing: int = 0\n    keep_alive: bool = False\n"),
+        ("        self._partial_missing: int = 0\n", ""),
+        ("        self.keep_alive: bool = False\n", "")], ("C07", "C10")),
 }
 
 
